@@ -371,8 +371,8 @@ fn recv_other_pdu_unfragmented() {
 ///   is answered by Error code 8 with the negotiated version; the Error PDU
 ///   encapsulates exactly the 8 offending bytes and its length fields are
 ///   consistent; a refused header never changes the state
-/// @out that recv calls this step for every header is by reading (and is
-///   decided in the thorough tier for unfragmented arrival)
+/// @out that recv applies this step to every header it reads is by reading
+///   only: the harnesses that run recv itself did not finish (kept off)
 #[kani::proof]
 #[kani::unwind(3)]
 fn version_check_one_step() {
